@@ -378,7 +378,7 @@ class Gen:
             if shape != "small":
                 r.shuffle(ent)
             if shape == "unrecognised":
-                ent.insert(r.randrange(len(ent) + 1), (sats[0], self.bad_sig(r)))
+                ent.insert(r.randrange(len(ent) + 1), (sats[0], self.bad_sig(r, "gps" if n1059 else "glo")))
             if shape == "dupkey":
                 ent.append(ent[0])
             if shape == "badsat":
